@@ -8,7 +8,10 @@ import (
 
 // Stubs for runtime caller information and encoding/json's Encoder (contracts, DESIGN 2.2).
 
-var frameFiles = []string{"/a/b/c.go", "c.go", "", "/x.go", "a/b.go"}
+// file names a program counter may resolve to: absolute, without directory (go run of a single file under -trimpath),
+// empty (unknown pc), one directory (package main of module "example" under -trimpath), names that need quoting
+var frameFiles = []string{"/a/b/c.go", "c.go", "", "/x.go", "example/main.go", "/src/my dir/gen=a.go", "/p/q\"r.go"}
+var frameLines = []int{42, 0, 1234567, 7, 1, 6, 99}
 
 func (e *Exec) setField(sv *Struct, st *types.Struct, name string, v Value) *Struct {
 	out := &Struct{F: append([]Value{}, sv.F...)}
@@ -50,10 +53,14 @@ func init() {
 		ft := fn.Signature.Results().At(0).Type()
 		st := ft.Underlying().(*types.Struct)
 		fv := e.zero(ft).(*Struct)
-		k := e.pick(len(frameFiles))
-		e.inputs = append(e.inputs, InputVal{Call: "stub:frame", Vals: []uint64{uint64(k)}})
+		// every pc the Callers stub hands out is the same one, so within a path it resolves to the same frame
+		if e.framePick < 0 {
+			e.framePick = e.pick(len(frameFiles))
+			e.inputs = append(e.inputs, InputVal{Call: "stub:frame", Vals: []uint64{uint64(e.framePick)}})
+		}
+		k := e.framePick
 		fv = e.setField(fv, st, "File", e.strFromGo(frameFiles[k]))
-		fv = e.setField(fv, st, "Line", mkInt(64, uint64([]int{42, 0, 1234567, 7, 1}[k])))
+		fv = e.setField(fv, st, "Line", mkInt(64, uint64(frameLines[k])))
 		fv = e.setField(fv, st, "PC", mkInt(64, 0x4242))
 		return Tuple{fv, Bool{C: false}}
 	})
